@@ -153,8 +153,10 @@ class Stack(Formattable):
             type(self.error), self.error, self.error.__traceback__
         ):
             if line != "Traceback (most recent call last):\n":
-                for subline in line.splitlines(True):
-                    yield "  " + subline
+                # splitlines() also splits at \r, \f, \x85, \u2028, etc;
+                # terminate every piece with a newline, whatever ended it
+                for subline in line.splitlines():
+                    yield "  " + subline + "\n"
 
     def as_stdlib_summary(
         self,
